@@ -382,13 +382,23 @@ func newWorld(scratch string) *world {
 	return w
 }
 
+// stamp tells whether a SQLite data base was written: size and modification
+// time of the file and of its journal / write-ahead log.
 func stamp(path string) string {
-	st, err := os.Stat(path)
-	if err != nil {
-		return "absent"
+	out := ""
+
+	for _, side := range []string{"", "-wal", "-journal"} {
+		st, err := os.Stat(path + side)
+		if err != nil {
+			out += "absent;"
+
+			continue
+		}
+
+		out += fmt.Sprintf("%d/%d;", st.Size(), st.ModTime().UnixNano())
 	}
 
-	return fmt.Sprintf("%d/%d", st.Size(), st.ModTime().UnixNano())
+	return out
 }
 
 var allCaches = []int{caches.DSNCache, caches.AuthCache, caches.UserCache, caches.TokenCache, caches.BlacklistCache, caches.SchemaCache,
